@@ -20,6 +20,7 @@ import (
 	agentcontract "github.com/teleport-network/teleport/syscontracts/xibc_agent"
 	endpointcontract "github.com/teleport-network/teleport/syscontracts/xibc_endpoint"
 	packetcontract "github.com/teleport-network/teleport/syscontracts/xibc_packet"
+	aggtypes "github.com/teleport-network/teleport/x/aggregate/types"
 	xibctmtypes "github.com/teleport-network/teleport/x/xibc/clients/light-clients/tendermint/types"
 	tsstypes "github.com/teleport-network/teleport/x/xibc/clients/tss-client/types"
 	clienttypes "github.com/teleport-network/teleport/x/xibc/core/client/types"
@@ -51,6 +52,7 @@ type World struct {
 	Now      time.Time
 	Marker   common.Address
 	Fwd      map[string]common.Address // chain id -> the user's forwarding contract
+	Skew     map[string]time.Duration  // how far a chain's block time runs ahead of the world clock (Elapse)
 }
 
 type SnapT struct {
@@ -278,9 +280,9 @@ func (w *World) Commit(n string) int {
 	c.EndBlock()
 	c.App.Commit()
 	DetRecord(fmt.Sprintf("commit|%x", c.App.LastCommitID().Hash), nil)
-	c.Now = w.Now
+	c.Now = w.Now.Add(w.Skew[n])
 	c.Header.Height = c.App.LastBlockHeight() + 1
-	c.Header.Time = w.Now
+	c.Header.Time = c.Now
 	c.Header.AppHash = c.App.LastCommitID().Hash
 	c.beginBlock()
 	c.LastHdr = SignedHeader(c.ChainID, c.Header.Height, c.Header.Time, c.Header.AppHash, c.Vals, c.Vals, c.Signers)
@@ -296,6 +298,53 @@ func (w *World) Commit(n string) int {
 	}
 	w.Snap[n] = append(w.Snap[n], snap)
 	return len(w.AbsH[n]) - 1
+}
+
+// Supply limits of the endpoint contract (governance proposals of the aggregate module).
+const (
+	LimitPeriod = 300 // seconds
+	LimitJump   = 400 // Elapse: the chain's next block lies this much later (MaxH such blocks stay within the clients' clock drift of one hour)
+)
+
+func (w *World) limToken(n, x string) common.Address {
+	if x == "own" {
+		return w.Origin[n]
+	}
+	return w.Wrap[n][x]
+}
+
+// EnableLimit / DisableLimit: the aggregate module's proposals, through the routed governance handler.
+func (w *World) EnableLimit(n, x string, cp, mx, mn int64) (string, string) {
+	p := aggtypes.NewEnableTimeBasedSupplyLimitProposal("t", "d", w.limToken(n, x).String(), strconv.Itoa(LimitPeriod),
+		strconv.FormatInt(cp, 10), strconv.FormatInt(mx, 10), strconv.FormatInt(mn, 10))
+	return w.Chains[n].ExecProposal(p)
+}
+
+func (w *World) DisableLimit(n, x string) (string, string) {
+	return w.Chains[n].ExecProposal(aggtypes.NewDisableTimeBasedSupplyLimitProposal("t", "d", w.limToken(n, x).String()))
+}
+
+// Elapse: the next block of chain n lies more than a limit period after the previous one.
+func (w *World) Elapse(n string) int {
+	if w.Skew == nil {
+		w.Skew = map[string]time.Duration{}
+	}
+	w.Skew[n] += LimitJump * time.Second
+	return w.Commit(n)
+}
+
+// projectLimit reads endpoint.limits(token): (enabled, timePeriod, timeBasedLimit, maxAmount, minAmount, previousTime, currentSupply)
+func (w *World) projectLimit(c *Chain, token common.Address) M {
+	off := M{"on": false, "cap": 0, "max": 0, "min": 0, "used": 0, "stale": false}
+	o, err := c.View(endpointABI, endpAddr, "limits", token)
+	if err != nil || len(o) != 7 {
+		return M{"on": false, "cap": -1, "max": -1, "min": -1, "used": -1, "stale": false}
+	}
+	if on, _ := o[0].(bool); !on {
+		return off
+	}
+	bi := func(i int) int64 { return o[i].(*big.Int).Int64() }
+	return M{"on": true, "cap": bi(2), "max": bi(3), "min": bi(4), "used": bi(6), "stale": c.Ctx().BlockTime().Unix()-bi(5) >= bi(1)}
 }
 
 // RealHeight maps an abstract height of chain n to the light-client height; unknown heights map past the tip.
@@ -925,8 +974,14 @@ func (w *World) Project(n string) M {
 		clients[d] = cl
 	}
 	org := w.Origin[n]
+	lim := M{"own": w.projectLimit(c, org)}
+	for _, d := range w.Names {
+		if d != n {
+			lim[d] = w.projectLimit(c, w.Wrap[n][d])
+		}
+	}
 	return M{"h": len(w.AbsH[n]) - 1, "seq": seq, "cseq": cseq, "commits": commits, "receipts": receipts, "acks": acks,
-		"rot": rot, "badrel": badrel, "out": out, "bind": bind, "wbal": wbal, "wsup": wsup, "wlock": wlock, "status": status, "fees": fees, "clients": clients,
+		"rot": rot, "badrel": badrel, "out": out, "bind": bind, "wbal": wbal, "wsup": wsup, "wlock": wlock, "status": status, "fees": fees, "clients": clients, "lim": lim,
 		"ubal":   w.viewBig(c, erc20ABI, org, "balanceOf", user.Eth),
 		"rbal":   w.viewBig(c, erc20ABI, org, "balanceOf", c.Accts[AcctRelayer].Eth),
 		"held":   w.viewBig(c, erc20ABI, org, "balanceOf", packetAddr),
